@@ -342,11 +342,17 @@ class CountingReceive(object):
         await self.app(scope, counted, send)
 
 
-def make_events(body, chunks, tail_empty):
+def make_events(body, chunks, tail_empty, keyless=False):
     """Split body into http.request events.  Sizes cycle through `chunks` (0 = an empty event with
-    more_body=True, legal in ASGI); long bodies scale the sizes so the event count stays small."""
+    more_body=True, legal in ASGI); long bodies scale the sizes so the event count stays small.
+    keyless: optional keys are omitted where the ASGI spec gives them defaults (an empty `body`, a false
+    `more_body`), as some servers do."""
     if not chunks or not any(chunks) or not body:
         events = [{'type': 'http.request', 'body': body, 'more_body': False}]
+        if keyless:
+            if not body:
+                del events[0]['body']
+            del events[0]['more_body']
     else:
         scale = max(1, len(body) // 400)
         events = []
@@ -360,8 +366,16 @@ def make_events(body, chunks, tail_empty):
         events[-1]['more_body'] = False
     if tail_empty:
         events[-1]['more_body'] = True
-        events.append({'type': 'http.request', 'body': b'', 'more_body': False})
+        events.append({'type': 'http.request'} if keyless else {'type': 'http.request', 'body': b'', 'more_body': False})
     return events
+
+
+def check_no_late_receive(res, where):
+    """Once the final http.request event has been handed over, the framework has no reason to await
+    receive() again while it parses the media (on a real server that call blocks until the client leaves)."""
+    if res.receive_after_end:
+        raise Violation('receive_after_final_event', '%s: receive() awaited %d time(s) after the final http.request event'
+                        % (where, res.receive_after_end))
 
 
 def drive(coro):
@@ -483,8 +497,9 @@ class RoundTrip(Suite):
             res = W.call(wapp, W.build_environ('POST', '/m', headers=req_headers(ct, body, True), body=body))
             self._check_back('wsgi', origin, res, box, case, doc, body)
             box.clear()
-            events = make_events(body, case['chunks'], case['tail_empty'])
+            events = make_events(body, case['chunks'], case['tail_empty'], keyless=not case['cl'])
             res = A.call(aapp, A.build_scope('POST', '/m', headers=req_headers(ct, body, case['cl'])), events)
+            check_no_late_receive(res, 'asgi roundtrip request, events=%r' % (events[:4],))
             self._check_back('asgi', origin, res, box, case, doc, body)
 
         if is_form:
@@ -673,8 +688,9 @@ def run_history(case):
         def probe():
             return (counter.entries, counter.loads, counting.calls, counting.bytes)
 
-        events = make_events(body, case['chunks'], case['tail_empty'])
+        events = make_events(body, case['chunks'], case['tail_empty'], keyless=not case['cl'])
         res = A.call(counting, A.build_scope('POST', '/m', headers=req_headers(ct, body, case['cl'])), events)
+        check_no_late_receive(res, 'asgi request ct=%r ops=%r events=%r' % (CTYPES[ct], ops, events[:4]))
         code = res.code if res.start else None
         consumed = counting.bytes
     else:
